@@ -14,7 +14,7 @@ RULE = ("A zoo transform (any class/composite, images with H != W and C >= 2, co
         "trained), float32 and float64, batch of 2-6 deliberately heterogeneous rows (different magnitudes, some rows in the "
         "tails / on special points / 15 sigma outliers). For forward, inverse, log_prob and transform_to_noise: (a) row i of "
         "the batch result equals the result on row i alone; (b) a drawn permutation of the batch permutes the results; (c) "
-        "appending extra rows leaves the first n results unchanged. Tolerance 1e-9 relative in float64, 1e-3 in float32 (BLAS "
+        "appending extra rows leaves the first n results unchanged, so does repeating the rows up to a batch of 9/17/33/64. Tolerance 1e-9 relative in float64, 1e-3 in float32 (BLAS "
         "blocks differently per batch size; mixing bugs are O(1) by construction). Non-trivial: >= 2 rows whose results "
         "differ by > 1e-3 and the map is not parameter-free elementwise. Distinct = distinct case JSON.")
 ASSUMPTIONS = ["training mode is out of scope (batch statistics legitimately couple rows)", "sampling is excluded (random)"]
@@ -209,6 +209,12 @@ def _compare(res, f, full, Xn, Cn, X, ctx, n, cmp, case, b, m, shared_obj):
             # (c) extra rows appended
             ext = f(X, ctx)
             if not cmp(full, [t[:n] for t in ext], "extra-rows appended"):
+                return res
+            # (c') a much larger batch (implementations may switch algorithm on the batch size): the n rows repeated cyclically
+            B = [9, 17, 33, 64][case["perm_seed"] % 4]
+            idx = torch.arange(B) % n
+            big = f(Xn[idx], Cn[idx] if Cn is not None else None)
+            if not cmp([t[idx] for t in full], big, "the same rows inside a batch of %d" % B):
                 return res
             # (d) ONE object evaluated with several batch sizes in a row (no fresh copies): earlier batches must not matter
             if n >= 2:
